@@ -309,6 +309,12 @@ def to_tagged(j):
     if isinstance(j, bool):
         return {"t": "bool", "b": j}
     if isinstance(j, int):
+        if abs(j) > 2147483647:          # large magnitudes: p * 10^e with at most nine significant digits (JValue!JBig), or outside the model
+            d = str(abs(j))
+            sig = d.rstrip("0")
+            if len(sig) <= 9 and len(d) >= 11 and len(d) > len(sig):
+                return {"t": "num", "p": (-1 if j < 0 else 1) * int(sig), "q": 1, "e": len(d) - len(sig)}
+            return {"t": "num", "big": str(j)}
         return {"t": "num", "p": j, "q": 1}
     if isinstance(j, float):
         from fractions import Fraction
